@@ -675,16 +675,25 @@ def query_rules(run, model, rule='HSM-QUERY'):
         run.touch(f, g)
         selfn, argp = f.params[0], f.params[1]
         # write set: only the cursor
-        bad = []
-        for n in walk_shallow(f.node):
-            tg = n.targets if isinstance(n, ast.Assign) else ([n.target] if isinstance(n, (ast.AugAssign, ast.AnnAssign)) else [])
-            for t in tg:
-                for x in ([t] if not isinstance(t, ast.Tuple) else t.elts):
-                    d = dotted(x)
-                    if d and d.startswith(selfn + '.') and d != selfn + '.temp.fun':
-                        bad.append(d)
-            if isinstance(n, ast.Call) and isinstance(n.func, ast.Attribute) and dotted(n.func.value) == selfn:
-                bad.append('call ' + norm(n.func))
+        def writes_of(fn_, seen):
+            """attributes of the chart other than the cursor that fn_ (or a method of the chart it calls) stores into; a call of something unknown counts"""
+            out = []
+            sn_ = fn_.params[0]
+            for n in walk_shallow(fn_.node):
+                tg = n.targets if isinstance(n, ast.Assign) else ([n.target] if isinstance(n, (ast.AugAssign, ast.AnnAssign)) else [])
+                for t in tg:
+                    for x in ([t] if not isinstance(t, ast.Tuple) else t.elts):
+                        d = dotted(x)
+                        if d and d.startswith(sn_ + '.') and d != sn_ + '.temp.fun':
+                            out.append(selfn + d[len(sn_):])
+                if isinstance(n, ast.Call) and isinstance(n.func, ast.Attribute) and dotted(n.func.value) == sn_:
+                    m_ = model.lookup_method(hep, n.func.attr) if hasattr(model, 'lookup_method') else hep.methods.get(n.func.attr)
+                    if m_ is None or m_.qualname in seen or not m_.params:
+                        out.append('call ' + norm(n.func))
+                    else:
+                        out += writes_of(m_, seen | {m_.qualname})
+            return out
+        bad = writes_of(f, {f.qualname})
         run.inst(rule + '.effects', f, '%s writes nothing but the cursor' % nm, not bad,
                  '' if not bad else '%s modifies %s: a query changes the chart' % (nm, sorted(set(bad))), obligation=True)
         heads = [h for h in g.loop_heads() if h.kind == 'test']
